@@ -233,6 +233,46 @@ def cli_cases(res, drv, d):
         cols = int(v[v.index("--columns-count") + 1]) if "--columns-count" in v else None
         if cols and any(len(re.findall(r"0x[0-9a-f]{2}", r)) > cols for r in body.split("\n")):
             res.spec_failures.append({"cli": "convert", "options": v, "what": "a row holds more than the requested number of columns"})
+    # unsupported format combinations through the command line: the exit status reports the error and no key file is left behind;
+    # supported non-default combinations write a loadable, matching pair
+    combos = [("ed25519", "pem", "pkcs1", "default", False), ("ed448", "der", "pkcs1", "default", False), ("ed25519", "pem", "pkcs8", "pkcs1", False),
+              ("secp256r1", "pem", "pkcs8", "pkcs1", False), ("secp384r1", "der", "pkcs1", "default", True), ("ed448", "der", "pkcs8", "default", True),
+              ("secp521r1", "pem", "pkcs1", "default", True)]
+
+    def combo(k):
+        ktype, enc, pf, pubf, ok = combos[k]
+        prefix = os.path.join(d, f"combo{k}")
+        rc, log = common.run_cli(["keys", "--output-file", prefix, "--type", ktype, "--encoding", enc, "--private-format", pf, "--public-format", pubf], d)
+        return rc, log, prefix
+    with ThreadPoolExecutor(max_workers=8) as ex:
+        combo_outs = list(ex.map(combo, range(len(combos))))
+    for (ktype, enc, pf, pubf, ok), (rc, log, prefix) in zip(combos, combo_outs):
+        res.case(["cli-keys-combo", ktype, enc, pf, pubf], nontrivial=True)
+        res.count("cli:keys-combination")
+        privp, pubp = f"{prefix}_priv.{enc}", f"{prefix}_pub.{enc}"
+        left = [f for f in (privp, pubp) if os.path.exists(f)]
+        if not ok:
+            if rc == 0:
+                res.spec_failures.append({"cli": "keys", "request": [ktype, enc, pf, pubf], "what": "an unsupported format combination: the command line reported success (exit 0)",
+                                          "files": [os.path.basename(f) for f in left]})
+            elif left:
+                res.spec_failures.append({"cli": "keys", "request": [ktype, enc, pf, pubf], "what": "an unsupported format combination was reported and still left key files behind",
+                                          "files": [os.path.basename(f) for f in left]})
+            continue
+        if rc != 0 or len(left) != 2:
+            res.spec_failures.append({"cli": "keys", "request": [ktype, enc, pf, pubf], "what": f"a supported combination failed on the command line (exit {rc})", "log": log[-300:]})
+            continue
+        load_priv = serialization.load_pem_private_key if enc == "pem" else serialization.load_der_private_key
+        load_pub = serialization.load_pem_public_key if enc == "pem" else serialization.load_der_public_key
+        try:
+            priv, pub = load_priv(open(privp, "rb").read(), None), load_pub(open(pubp, "rb").read())
+            kind = priv.curve.name if hasattr(priv, "curve") else type(priv).__name__.lower()
+            same = priv.public_key().public_bytes(serialization.Encoding.DER, serialization.PublicFormat.SubjectPublicKeyInfo) == \
+                pub.public_bytes(serialization.Encoding.DER, serialization.PublicFormat.SubjectPublicKeyInfo)
+            if ktype not in kind or not same:
+                res.spec_failures.append({"cli": "keys", "request": [ktype, enc, pf, pubf], "holds": kind, "what": "the pair written is not a matching pair of the requested type"})
+        except Exception as e:  # noqa
+            res.spec_failures.append({"cli": "keys", "request": [ktype, enc, pf, pubf], "what": "the key files do not load with standard tooling: " + type(e).__name__})
     for rc, log, prefix, ktype in kouts:
         res.case(["cli-keys", ktype], nontrivial=True)
         res.count("cli:keys")
